@@ -270,5 +270,8 @@ GenFns(k, sigs, ctr, nstmts) ==
 GenProg(NF, NS) ==
   LET fs == GenFns(NF, <<>>, 1, 4)
       m == GenSS(NS, <<>>, fs.ctr, fs.sigs, [loop |-> FALSE, ret |-> TNil, fn |-> FALSE, d |-> 2])
-  IN File1(StdTypes, fs.defs, m.ss)
+      \* half of the programs end in a scalar expression statement: its value is the result the runtime reports
+      last == IF Chance(1, 2) THEN <<ExprS(GenE(IF Chance(1, 2) THEN TInt ELSE TBool, m.env, fs.sigs, 2))>> ELSE <<>>
+      ord == Pick({"decls-first", "decls-first", "fns-last", "main-first"})
+  IN [files |-> <<[name |-> "main.abra", uses |-> <<>>, types |-> StdTypes, fns |-> fs.defs, main |-> m.ss \o last, order |-> ord]>>]
 =============================================================================
